@@ -13,10 +13,26 @@ T2: every result (recipe, heads, client walk keys, wire bytes, server reply) is
 compared with the Lean model (Model/C33.lean) through the driver.
 Oracle (independent of the model): the server accepts the recipe (count check)
 and the set it walks equals the client's intended set — keys(parent_map) (plus
-NULL_REVISION in the documented pruned-null case) for the unlimited recipe, the
-client's own walk for the limited one; the server walk is additionally checked
-against an independent reachability computation, also on random (wrong)
-recipes where the count check must fail exactly when the size differs.
+NULL_REVISION in the documented pruned-null case) for the unlimited recipe; for the
+limited one the set is computed FROM THE CACHE ALONE (spec_limited_keys: distance
+relaxation over the child graph -> heads = keys at child distance `depth` plus the
+childless nearer ones -> cached non-tip keys reachable from them), NOT from the
+client's own searcher: the real _find_possible_heads and the real _run_search walk
+must equal it (theorems heads_char / limited_keys_char), and with uncached tips every
+key within `depth` child steps of a tip must be covered (limited_keys_lower).  The
+server walk is additionally checked against an independent reachability computation,
+also on random (wrong) recipes where the count check must fail exactly when the size
+differs.
+Ghost filling: a share of the caches is replayed on the server graph after ghosts
+were filled in (`+filled`): the limited recipe must still be accepted with the same
+set (limited_recipe_ghost_fill_safe — the claim of the comment in
+recreate_search_from_recipe); the unlimited recipe prunes recorded-missing keys from
+its stop keys and is then rejected (unlimited_ghost_filled_witness; outside the
+precondition `recorded-missing keys are ghosts`, counted, compared with the model,
+not reported; only reachable with _DEFAULT_SEARCH_DEPTH <= 0).
+Stacked view: graphs whose lower part lives in a fallback (many ghosts, also leftmost);
+the end-to-end stream asks for NULL together with other keys (F46 leaves NULL cached as
+missing, the pruned-NULL count adjustment then runs through the real RPC).
 
 Mutants tried (scratch worktree, VERIF_REPO), all caught with a concrete replay:
   M1  search_result_from_parent_map: stop_keys computed after start_set was pruned
@@ -32,6 +48,15 @@ Mutants tried (scratch worktree, VERIF_REPO), all caught with a concrete replay:
   M7  same: stop keys applied one iteration late (walk passes one level beyond every stop key) -> oracle
   M8  _find_possible_heads: `depth > 0` -> `depth >= 0` (recipe still exact) -> depth oracle + T2
   H1  harmless: chain.from_iterable replaced by loops / comprehension -> clean
+ improvement round (all self-consistent recipes: the former oracle, which took the intended set from
+ the client's own _run_search, accepted A-D):
+  A   _find_possible_heads: `walked.update(children)` dropped (keys re-walked at a larger distance) -> heads oracle + T2
+  B   _find_possible_heads: only the first child of each key followed (walk silently shrinks)      -> heads oracle
+  C   _run_search: also stops at merge revisions (client walk shrinks, recipe stays exact for it)   -> intended-set oracle
+  D   limited_search_result_from_parent_map: heads searched with depth-1                            -> intended-set oracle
+  E   limited recipe drops recorded-missing ghosts from its exclude keys (needs a ghost filled in
+      on the server after the client cached it as missing)                                          -> oracle on `+filled` cases
+  H   harmless: `children.difference(walked)` as a set comprehension -> clean
 """
 import itertools
 
@@ -42,13 +67,17 @@ THEOREMS = [
     "limited_recipe_exact", "limited_recipe_accepted", "limited_keys_cached",
     "recreate_ok_iff", "split_join", "parseDec_toDec", "recipe_serialise_roundtrip",
     "walk_ghost_start", "heads_within_depth",
+    "heads_char", "limited_keys_char", "limited_keys_lower", "limited_keys_parent_closed",
+    "limited_recipe_ghost_fill_safe", "unlimited_ghost_filled_witness",
+    "wire_transport", "recipe_end_to_end", "limited_end_to_end", "exEnc_ok",
 ]
 RULE = ("case = (graph with ghosts and NULL, client cache, missing set, tips, depth / recipe); "
         "non-trivial = cache non-empty and the server walk meets at least one stop key or ghost, "
         "or the reply is NoSuchRevision")
 ASSUMPTIONS = [
     "revision graphs are acyclic (generated DAGs; the theorems take a rank function as witness)",
-    "client caches agree with the server graph on cached keys; keys recorded missing are ghosts (NULL may be recorded missing)",
+    "client caches agree with the server graph on cached keys; for the UNLIMITED recipe keys recorded missing are ghosts "
+    "(NULL may be recorded missing) - the limited recipe needs no such assumption (ghost filling is covered)",
     "revision ids contain no space/newline and are non-empty",
 ]
 TRUSTED = [
@@ -130,7 +159,9 @@ def gen_cache(rng, g, ghosts, n):
     caches are arbitrary sub-maps (the theorems cover them too)."""
     kind = rng.choice(("search", "search", "search", "any", "empty" if rng.random() < 0.3 else "any"))
     pm, missing = {}, set()
-    nodes = [kid(i) for i in range(1, n + 1)]
+    nodes = [kid(i) for i in range(1, n + 1) if kid(i) in g]
+    if not nodes:
+        nodes = [kid(n)]
     if kind == "empty":
         tips = rng.sample(nodes, min(len(nodes), rng.randint(1, 2)))
         return kind, pm, missing, tips
@@ -261,6 +292,38 @@ def reach_included(g, start, stop):
     return {k for k in seen if k in g and k not in stop}
 
 
+def spec_heads(pm, tips, depth):
+    """independent of _find_possible_heads: breadth-first distance (in child steps of the cache)
+    from the tips; heads = keys at distance exactly `depth`, plus childless keys nearer"""
+    children = {}
+    for c, ps in pm.items():
+        for p in ps:
+            children.setdefault(p, set()).add(c)
+    dist = {}
+    for t in tips:
+        dist[t] = 0
+    changed = True
+    while changed:                      # Bellman-Ford style relaxation (not level-by-level)
+        changed = False
+        for p, cs in children.items():
+            if p in dist:
+                for c in cs:
+                    if dist.get(c, 1 << 30) > dist[p] + 1:
+                        dist[c] = dist[p] + 1
+                        changed = True
+    heads = {k for k, d in dist.items() if d == depth or (d < depth and not children.get(k))}
+    return heads, dist
+
+
+def spec_limited_keys(pm, tips, depth):
+    """the set limited_search_result_from_parent_map is meant to describe, computed from the cache
+    alone: cached non-tip keys reachable from the heads by parent steps through cached non-tip keys"""
+    if not pm:
+        return set(), set(), {}
+    heads, dist = spec_heads(pm, tips, depth)
+    return reach_included(pm, heads, set(tips)), heads, dist
+
+
 def child_distance(pm, tips, h):
     """least number of child steps from a tip to h in the cache (inf if none)"""
     dist = {t: 0 for t in tips}
@@ -300,9 +363,11 @@ def jcase(kind, g, pm, missing, tips, depth=None, extra=None):
     return c
 
 
-def check_server(ctx, b, case, g, repo, start, stop, count, intended, what, null_case=False):
+def check_server(ctx, b, case, g, repo, start, stop, count, intended, what, null_case=False, may_reject=False):
     """serialise with the real serialiser, replay with the real server function,
-    T2 on both, oracle on the outcome.  `intended` = set the client means."""
+    T2 on both, oracle on the outcome.  `intended` = set the client means.
+    may_reject: the case is outside the property's precondition (a key the client recorded as
+    missing exists on the server): a NoSuchRevision answer is counted, not reported."""
     body = serialise(sorted(start), sorted(stop), count)
     b.add(case, "ser %s %s %d" % (hexlist(sorted(start)), hexlist(sorted(stop)), count), body.hex() or "-")
     lines = body.split(b"\n")
@@ -310,9 +375,13 @@ def check_server(ctx, b, case, g, repo, start, stop, count, intended, what, null
     wstop = set(lines[1].split(b" "))
     out, (kind, started, excludes, inc) = server(repo, body)
     b.add(case, "srv %s %s %s %d F" % (spm(g), sset(wstart), sset(wstop), count), out)
+    spec = reach_included(g, wstart, wstop)
     if kind != "ok":
+        if may_reject and kind == "NoSuchRevision" and len(spec) != count:
+            ctx.count("ghost-filled:unlimited-rejected")
+            return True
         ctx.violation(case, "%s: server rejects the client's own recipe (%s): start=%s stop=%s count=%d intended=%s walk=%s" % (
-            what, kind, sset(start), sset(stop), count, sset(intended), sset(reach_included(g, wstart, wstop))))
+            what, kind, sset(start), sset(stop), count, sset(intended), sset(spec)))
         ctx.count("srv:" + kind)
         return False
     if started != wstart:
@@ -320,10 +389,11 @@ def check_server(ctx, b, case, g, repo, start, stop, count, intended, what, null
     if inc != set(intended):
         ctx.violation(case, "%s: server walk %s differs from the intended set %s (missing %s, extra %s)" % (
             what, sset(inc), sset(intended), sset(set(intended) - inc), sset(inc - set(intended))))
-    spec = reach_included(g, wstart, wstop)
     if inc != spec:
         ctx.violation(case, "%s: server walk %s is not the reachable set %s" % (what, sset(inc), sset(spec)))
     ctx.count("srv:ok")
+    if may_reject:
+        ctx.count("ghost-filled:unlimited-accepted")
     return bool(excludes - {b""})
 
 
@@ -341,7 +411,11 @@ def one_case(ctx, b, g, ghosts, kind, pm, missing, tips, repo, depths):
     if null_case:
         intended = intended | {NULL}
         ctx.count("null-pruned")
-    nt = check_server(ctx, b, case, g, repo, start, stop, count, intended, "search_result_from_parent_map")
+    # precondition of the unlimited recipe (hypothesis hmiss of recipe_exact): keys recorded missing
+    # are ghosts of the server (NULL excepted).  Not so after a ghost was filled in on the server.
+    stale_missing = {m for m in missing if m != NULL and m in g}
+    nt = check_server(ctx, b, case, g, repo, start, stop, count, intended, "search_result_from_parent_map",
+                      may_reject=bool(stale_missing & refs))
     nontriv = bool(pm) and nt
     ctx.case(case, nontrivial=nontriv)
     ctx.count("cache:" + kind)
@@ -351,6 +425,8 @@ def one_case(ctx, b, g, ghosts, kind, pm, missing, tips, repo, depths):
         case = jcase("lim:" + kind, g, pm, missing, tips, depth)
         lstart, lstop, lcount = vf_search.limited_search_result_from_parent_map(dict(pm), set(missing), list(tips), depth)
         lstart, lstop = set(lstart), set(lstop)
+        # the intended set, computed from the cache alone (NOT from the client's own searcher)
+        want, want_heads, dist = spec_limited_keys(pm, tips, depth)
         if pm:
             heads = vf_search._find_possible_heads(dict(pm), list(tips), depth)
             s, found_heads = vf_search._run_search(dict(pm), set(heads), set(tips))
@@ -360,16 +436,57 @@ def one_case(ctx, b, g, ghosts, kind, pm, missing, tips, repo, depths):
             if far:
                 ctx.violation(case, "depth limit: _find_possible_heads(depth=%d) returns %s, more than %d child steps away from the tips %s" % (
                     depth, sset(far), depth, sset(tips)))
+            if set(heads) != want_heads:
+                ctx.violation(case, "_find_possible_heads(depth=%d) = %s, the keys at child distance %d from the tips %s plus the "
+                              "childless nearer ones are %s" % (depth, sset(heads), depth, sset(tips), sset(want_heads)))
+            if keys != want:
+                ctx.violation(case, "limited recipe (depth=%d): the client's walk %s is not the set the recipe is meant to "
+                              "describe %s (missing %s, extra %s)" % (depth, sset(keys), sset(want), sset(want - keys), sset(keys - want)))
+            if not (set(tips) & set(pm)):
+                # lower bound (theorem limited_keys_lower): uncached tips => everything within `depth`
+                # child steps of a tip is covered
+                near = {k for k, d in dist.items() if 1 <= d <= depth}
+                if not near <= keys:
+                    ctx.violation(case, "limited recipe (depth=%d): keys %s lie within %d child steps of the tips %s but are "
+                                  "not in the client's walk %s" % (depth, sset(near - keys), depth, sset(tips), sset(keys)))
+                ctx.count("lower-bound:checked")
         else:
             keys = set()
         b.add(case, "lim %s %s %d" % (spm(pm), sset(tips), depth),
               "%s %s %d %s" % (sset(lstart), sset(lstop), lcount, sset(keys)))
         if not keys <= set(pm):
             ctx.violation(case, "limited recipe: client walk %s leaves the cache" % sset(keys - set(pm)))
-        nt = check_server(ctx, b, case, g, repo, lstart, lstop, lcount, keys, "limited_search_result_from_parent_map(depth=%d)" % depth)
+        nt = check_server(ctx, b, case, g, repo, lstart, lstop, lcount, want, "limited_search_result_from_parent_map(depth=%d)" % depth)
         ctx.case(case, nontrivial=bool(pm) and nt)
         ctx.count("depth:%d" % depth)
         ctx.count("lim-keys:%s" % ("all" if keys == set(pm) else "none" if not keys else "part"))
+
+
+def fill_ghosts(rng, g, ghosts):
+    """the server a little later: some ghosts have been filled in (parents older than every
+    key that refers to them, so the graph stays acyclic)"""
+    g2 = dict(g)
+    filled = set()
+    for gh in ghosts:
+        refs = [kn(k) for k, ps in g.items() if gh in ps]
+        if not refs or rng.random() < 0.3:
+            continue
+        lo = min(refs)
+        cands = [kid(i) for i in range(1, lo) if kid(i) in g]
+        ps = tuple(rng.sample(cands, min(len(cands), rng.choice((1, 1, 2))))) if cands and rng.random() < 0.8 else (NULL,)
+        g2[gh] = ps
+        filled.add(gh)
+    return g2, filled
+
+
+def cut_lower(rng, g, n):
+    """the view a RemoteRepository has of a STACKED repository: only the upper part of the history is
+    in this repository, everything below the cut lives in the fallback and is a ghost here"""
+    if n < 3:
+        return g, []
+    m = rng.randint(1, n - 1)
+    g2 = {k: ps for k, ps in g.items() if k == NULL or kn(k) > m}
+    return g2, [kid(i) for i in range(1, m + 1)]
 
 
 def random_recipes(ctx, b, g, ghosts, repo, n, k):
@@ -485,6 +602,9 @@ def end_to_end(ctx, nrepos, n):
                     failed = None
                     for _ in range(2):      # the cache persists across searches under one lock
                         tips = rng.sample(nodes + ghosts, rng.randint(1, min(3, len(nodes))))
+                        if rng.random() < 0.2:
+                            tips.append(NULL)       # NULL asked for together with other keys (F46)
+                            ctx.count("e2e-null-tip")
                         searcher = gr._make_breadth_first_searcher(tips)
                         try:
                             while True:
@@ -545,12 +665,8 @@ def _e2e_oracle(ctx, g, ghosts, tips, depth, obs, walked):
         if keys is None:
             refs = set(itertools.chain.from_iterable(pm.values()))
             intended = set(pm) | ({NULL} if NULL in refs and NULL in missing else set())
-        elif pm:
-            heads = vf_search._find_possible_heads(dict(pm), set(keys), d)
-            s, _fh = vf_search._run_search(dict(pm), set(heads), set(keys))
-            intended = set(s.get_state()[2])
         else:
-            intended = set()
+            intended = spec_limited_keys(pm, set(keys), d)[0]
         ctx.count("e2e-cache:%s" % ("empty" if not pm else "nonempty"))
         if srv[2] is not None:
             ctx.violation(case, "end-to-end: server rejected the client's recipe %r (%r)" % (recipe, srv[2].args))
@@ -587,10 +703,23 @@ def run(ctx, scale=1):
         else:
             repo = StubRepo(g)
             ctx.count("repo:graph")
+        if not use_real and rng.random() < 0.15:
+            g, below = cut_lower(rng, g, n)
+            ghosts = ghosts + below
+            repo = StubRepo(g)
+            ctx.count("repo:stacked-upper-part")
         for _ in range(ctx.pick(3, 4)):
             kind, pm, missing, tips = gen_cache(rng, g, ghosts, n)
             depths = sorted(set(rng.sample(range(0, 6), 2) + [rng.choice((0, 1, 100))]))
             one_case(ctx, b, g, ghosts, kind, pm, missing, tips, repo, depths)
+            if ghosts and not use_real and rng.random() < 0.3:
+                # the same cache replayed on the server after ghosts were filled in
+                g2, filled = fill_ghosts(rng, g, ghosts)
+                if filled:
+                    ctx.count("ghost-filled:cases")
+                    if filled & set(missing):
+                        ctx.count("ghost-filled:recorded-missing")
+                    one_case(ctx, b, g2, ghosts, kind + "+filled", pm, missing, tips, StubRepo(g2), depths)
         random_recipes(ctx, b, g, ghosts, repo, n, 3)
         if gi % 10 == 0:
             malformed(ctx, b, g, repo, 6)
